@@ -47,14 +47,17 @@ PROPS = {
 
     "C01": {
         "module": "HctlProofs.Props.C01",
+        "extra_modules": ["HctlProofs.Lemmas.EntryPoints"],
         "theorems": ["Hctl.C01.model_check_correct", "Hctl.C01.invalid_colour_excluded", "Hctl.evalPure_correct",
                      "Hctl.C01.sat_EX", "Hctl.C01.sat_EG", "Hctl.C01.sat_AU", "Hctl.C01.sat_bind", "Hctl.C01.sat_jump",
-                     "Hctl.C01.steady_selfloop"],
+                     "Hctl.C01.steady_selfloop", "Hctl.formulaeDirty_correct", "Hctl.C04.treesDirty_sound"],
         "ks": ["k7"],
-        "spec_tied": ["k7:pure_"],
-        "full": False,
-        "not_proved": "the entry points run eval_node with the sub-formula cache; its equality with the cache-free evaluator "
-                      "(proved correct here) is the subject of C04 and is otherwise tied by correspondence",
+        "spec_tied": ["k7:eval "],
+        "full": True,
+        "not_proved": "nothing of the statement on the model: formulaeDirty_correct covers the whole plain pipeline (tokenizer, parser, "
+                      "preprocessing, support check, mark_duplicates, cached eval_node) for every list of input strings: the outcome is "
+                      "the parse/validation error or exactly the satisfaction sets under the path semantics; premises are about the "
+                      "environment only (EnvOK, GraphWF, GraphAsync, CharsOK)",
         "rule": "K7: 14 small networks (1-3 variables, 1-64 colours, constrained and unconstrained regulations) exported as explicit "
                 "Kripke families x k=0..3 x random batches of 1-3 well-scoped formulae over all operators; results compared "
                 "point-wise (every state x colour incl. invalid x valuation); non-trivial = result neither empty nor full",
@@ -62,14 +65,15 @@ PROPS = {
     },
     "C02": {
         "module": "HctlProofs.Props.C02",
+        "extra_modules": ["HctlProofs.Lemmas.EntryPoints"],
         "theorems": ["Hctl.C02.extended_correct", "Hctl.C02.sat_wild", "Hctl.C02.sat_bind_dom", "Hctl.C02.sat_exists_dom",
                      "Hctl.C02.sat_forall_dom", "Hctl.C02.exists_empty_dom", "Hctl.C02.forall_empty_dom",
                      "Hctl.C02.readme_equiv_1", "Hctl.C02.readme_equiv_2", "Hctl.C02.readme_equiv_3",
-                     "Hctl.C02.readme_equiv_2_gen", "Hctl.C02.readme_equiv_3_gen"],
+                     "Hctl.C02.readme_equiv_2_gen", "Hctl.C02.readme_equiv_3_gen", "Hctl.extendedDirty_correct", "Hctl.C04.extendedDirty_sound"],
         "ks": ["o02", "k7"],
-        "spec_tied": ["k7:pure_", "o02:pure_"],
-        "full": False,
-        "not_proved": "as C01: eval_node's cache is tied to the proved evaluator by correspondence (and C04)",
+        "spec_tied": ["k7:eval ", "o02:eval "],
+        "full": True,
+        "not_proved": "nothing of the statement on the model: extendedDirty_correct covers the whole extended pipeline (tokenizer, parser, preprocessing, context lookup, mark_duplicates, extend_context_with_wild_cards, cached eval_node) for every list of input strings and every context of variable-independent sets; the README equivalences are proved for every body formula",
         "rule": "O02: the three README equivalences (and their general forms) with random bodies and context sets that are empty / "
                 "full / colour-dependent / empty for some colours only, through the public API; K7 extended leg",
         "assumptions": EVAL_ASSUME + ["context sets are inside the unit set and independent of the spare variables (CtxOK); "
@@ -77,12 +81,13 @@ PROPS = {
     },
     "C03": {
         "module": "HctlProofs.Props.C03",
+        "extra_modules": ["HctlProofs.Lemmas.EntryPoints"],
         "theorems": ["Hctl.C03.eval_subset_unit", "Hctl.C03.result_colours_valid", "Hctl.C03.counts_le",
-                     "Hctl.C03.closed_indep_spare"],
+                     "Hctl.C03.closed_indep_spare", "Hctl.formulaeDirty_correct", "Hctl.extendedDirty_correct"],
         "ks": ["k7"],
-        "spec_tied": ["k7:pure_"],
-        "full": False,
-        "not_proved": "as C01: statements are about the cache-free evaluator; eval_node tied by correspondence",
+        "spec_tied": ["k7:eval "],
+        "full": True,
+        "not_proved": "nothing of the statement on the model: by formulaeDirty_correct / extendedDirty_correct every set returned by the entry points is the unit set intersected with a satisfaction set (hence inside the unit, valid colours only, counts bounded), and closed_indep_spare gives independence of spare variables",
         "rule": "K7 on networks whose regulation constraints exclude colours; oracle on the raw result bits: no point with an "
                 "invalid colour, no dependence on the spare variables",
         "assumptions": EVAL_ASSUME,
@@ -297,8 +302,8 @@ PROPS = {
                      "Hctl.keySem_holds", "Hctl.keyWild_holds", "Hctl.single_name_transfer", "Hctl.dups_le_one",
                      "Hctl.markDups_witness", "Hctl.C04.treesDirty_sound", "Hctl.C04.extendedDirty_sound"],
         "ks": ["o04", "k7"],
-        "spec_tied": ["o04:pure_", "k7:pure_"],
-        "full": False,
+        "spec_tied": ["o04:eval ", "k7:eval "],
+        "full": True,
         "not_proved": 'the two key facts the cache theorem needs are now DERIVED from the canoniser model (keySem_holds: equal keys => equal canonical trees => the cached set renamed back denotes the other sub-formula; keyWild_holds), via canonChars_render (character-level canoniser = tree-level canonical form), render_injective and sat_renameVar. Remaining hypotheses (definitions, not axioms): CharsOK (facts about Rust character classes, checked against std by K1), CtxSC (context sets do not depend on the variable slots), the top-level unit does not constrain the variable slots, GraphAsync (a transition changes the state). The former hypothesis "keys of the duplicate map have at most one variable" is now a theorem too: mark_duplicates only inserts keys of depth-named, well-scoped sub-formulae with at most one variable (markDups_witness), and "at most one variable" is a property of the KEY (dups_le_one, via single_name_transfer); treesDirty_sound / extendedDirty_sound / no_panic_treesDirty are end-to-end statements with the real duplicate map' + "; the initial context with wild-cards pre-loaded (extend_context_with_wild_cards) is now proved to satisfy "
                       "the invariant (init_cacheOK_ext, extended_batch_sound); the progress callback is not "
                       "an input of the model (it only receives references in Rust) — checked by the oracle",
@@ -309,11 +314,13 @@ PROPS = {
     },
     "C14": {
         "module": "HctlProofs.Props.C14",
+        "extra_modules": ["HctlProofs.Lemmas.EntryPoints"],
         "theorems": ["Hctl.C14.no_panic_trees", "Hctl.C14.preprocessed_goodQ", "Hctl.C14.error_iff_plain",
-                     "Hctl.C14.renameRec_plain", "Hctl.C07.rename_ok_iff", "Hctl.C14.no_panic_treesDirty"],
+                     "Hctl.C14.renameRec_plain", "Hctl.C07.rename_ok_iff", "Hctl.C14.no_panic_treesDirty",
+                     "Hctl.formulaeDirty_correct", "Hctl.extendedDirty_correct"],
         "ks": ["o14", "k7"],
-        "spec_tied": ["o14:pure_", "k7:pure_"],
-        "full": False,
+        "spec_tied": ["o14:eval ", "k7:eval "],
+        "full": True,
         "not_proved": 'the two key facts the cache theorem needs are now DERIVED from the canoniser model (keySem_holds: equal keys => equal canonical trees => the cached set renamed back denotes the other sub-formula; keyWild_holds), via canonChars_render (character-level canoniser = tree-level canonical form), render_injective and sat_renameVar. Remaining hypotheses (definitions, not axioms): CharsOK (facts about Rust character classes, checked against std by K1), CtxSC (context sets do not depend on the variable slots), the top-level unit does not constrain the variable slots, GraphAsync (a transition changes the state). The former hypothesis "keys of the duplicate map have at most one variable" is now a theorem too: mark_duplicates only inserts keys of depth-named, well-scoped sub-formulae with at most one variable (markDups_witness), and "at most one variable" is a property of the KEY (dups_le_one, via single_name_transfer); treesDirty_sound / extendedDirty_sound / no_panic_treesDirty are end-to-end statements with the real duplicate map' + "; stated for plain formulae (the extended case adds the clause 'missing context label' "
                       "which the model checks in parseAll and the correspondence compares); panics inside the BDD / graph libraries "
                       "and stack exhaustion on unbounded nesting are outside the model",
